@@ -9,8 +9,8 @@ From GoSecs Require Import Base.Decimal Sml.Syntax.
 Import ListNotations.
 Open Scope Z_scope.
 
-(** sml/encoder.go writeStrictASCII: printable runs (0x20..0x7E) quoted with [q], the quote and
-    the backslash escaped by a backslash; every other byte a 0xHH token; tokens and runs
+(** sml/encoder.go writeStrictASCII: printable runs (0x20..0x7E) quoted with [q], the quote, the
+    backslash and the closing bracket escaped by a backslash; every other byte a 0xHH token; tokens and runs
     separated by one space; "" renders as an empty run. State: [first] (nothing emitted yet),
     [in_run] (a quoted run is open). *)
 Definition printable (c : Z) : bool := (32 <=? c) && (c <? 127).
@@ -21,7 +21,7 @@ Fixpoint strict_ascii_loop (q : Z) (s : bytes) (first in_run : bool) : bytes :=
   | c :: s' =>
       if printable c then
         (if in_run then [] else (if first then [] else [c_sp]) ++ [q])
-        ++ (if (c =? q) || (c =? c_bs) then [c_bs] else []) ++ [c]
+        ++ (if (c =? q) || (c =? c_bs) || (c =? c_gt) then [c_bs] else []) ++ [c]
         ++ strict_ascii_loop q s' false true
       else
         (if in_run then [q] else [])
